@@ -429,9 +429,9 @@ class Frame:
         return self.state[("mem", self.ts.memmap[id(memory_data)], row)]
 
 
-def unroll(ts, k, init="reset", tag="t", state=None):
+def unroll(ts, k, init="reset", tag="t", state=None, rst_free=False):
     """k consecutive frames.  Returns (frames, constraints); inputs are free variables
-    ``<tag><i>_<port>``; ``rst`` is forced low."""
+    ``<tag><i>_<port>``; ``rst`` is forced low unless ``rst_free``."""
     if state is not None:
         st = state
     elif init == "reset":
@@ -442,7 +442,7 @@ def unroll(ts, k, init="reset", tag="t", state=None):
     cons = []
     for i in range(k):
         inp = ts.free_inputs(f"{tag}{i}")
-        if "rst" in inp:
+        if "rst" in inp and not rst_free:
             cons.append(inp["rst"] == 0)
         f = ts.frame(st, inp)
         frames.append(f)
